@@ -32,7 +32,7 @@ RULE = (
 ASSUMPTIONS = [
     "generator enforces cond(A^T S^-1 A) <= 1e8 and cond(V) <= 1e8 (measured on the reference; others discarded and counted)",
     "tolerances (statement: 'to within the minimizer's tolerance'; iminuit EDM goal 2e-5 <=> 4.5e-3 sigma): |p - p^| <= 1e-2 sigma (iminuit) / 5e-2 sigma (scipy BFGS with numerical gradient terminates on precision loss), "
-    "|C - C^|_ij <= tol * sqrt(C^_ii C^_jj) with tol = 2e-3 (scipy) / max(5e-3, 2e-7 * cond) (iminuit HESSE, numerical second derivatives at strategy 1; observed 2.8e-3 at cond 1.5e4, 1.7e-2 at 1.2e5, 2.4e-2 at 6e6), |chi2 - chi2^| <= 1e-3, asymmetric errors within 1e-2 sigma of +-sigma",
+    "|C - C^|_ij <= tol * sqrt(C^_ii C^_jj) with tol = 2e-3 (scipy) / max(5e-3, 2e-7 * cond) (iminuit HESSE, numerical second derivatives at strategy 1; observed 2.8e-3 at cond 1.5e4, 1.7e-2 at 1.2e5, 2.4e-2 at 6e6), |chi2 - chi2^| <= 1e-3, asymmetric errors within 1e-2 sigma of +-sigma; a covariance deviation of the iminuit backend is reported only if plain iminuit.Minuit (tol 0.01, strategy 1, same start, three step-size choices) on the closed-form cost of the same problem stays below half the tolerance or a third of the deviation seen - otherwise Minuit2's own accuracy cannot decide that case and its covariance comparison is discarded and counted",
     "scipy asymmetric errors (generic profile root finding with one numerical Hessian per profile point: ~2 s at 2-3 free parameters, 45 s at 6) are sampled at 10 % of the cases with <= 4 free parameters in the quick tier (thorough tier: always)",
     "shared sources of a multi-fit are absolute, data-referenced, on the y axis, for members of equal size (relative / x sources, refusals and disabling are C11's workload); joint covariance cond <= 1e8",
 ]
